@@ -44,6 +44,15 @@ def shapes_for(tier):
         for r in ([0, 2] if tier == "quick" else [0, 1, 2, 3]):
             out.append({"groups": [(rp, 2)], "free": [r]})
     out.append({"groups": [(1, 1)], "free": [2], "dup": True})
+    for rp in ([-1, 0, 1, 2] if tier == "quick" else [-1, 0, 1, 2, 5]):
+        out.append({"groups": [(rp, 1)], "drop": 1})
+    for rq in [-1, 0, 1, 2, 5]:
+        out.append({"cascade": [(rq, 1)]})
+        if tier != "quick":
+            out.append({"cascade": [(rq, 0)]})
+    out.append({"cascade": [(2, 3)], "free": [2]})
+    for rr, cnt in [(0, 11), (1, 5), (1, 6), (2, 4), (2, 5), (3, 4), (3, 8), (7, 4)]:
+        out.append({"runs": [(rr, cnt)]})
     if tier != "quick":
         for a, b in [(0, 0), (0, 1), (1, 1), (1, 2), (2, 2), (0, 2)]:
             out.append({"groups": [(a, 1), (b, 1)]})
